@@ -242,8 +242,13 @@ impl<'a> Gen<'a> {
         let t = self.target(&p);
         match &p.v {
             V::Ref(id) => match d.objs.get(id)?.clone() {
-                Obj::List(xs) => self.list_stmt(d, &ps, &conts, *id, &xs, t, slot),
-                Obj::Map(es) => self.map_stmt(d, &ps, &conts, *id, &es, t, slot),
+                Obj::List(xs) => self.list_stmt(d, &ps, &conts, *id, &xs, t, slot).map(|s| self.hostify(s, false)),
+                Obj::Map(es) => {
+                    if self.rng.chance(1, 14) {
+                        return self.host_map_stmt(d, &es, t, slot);
+                    }
+                    self.map_stmt(d, &ps, &conts, *id, &es, t, slot).map(|s| self.hostify(s, true))
+                }
             },
             V::T(xs) => self.tuple_stmt(d, &conts, xs, t, slot),
             _ => None,
@@ -486,10 +491,81 @@ impl<'a> Gen<'a> {
         })
     }
 
+    /// the same operation through the host (Rust) API instead of the script function, sometimes
+    fn hostify(&mut self, st: Stmt, is_map: bool) -> Stmt {
+        if !self.rng.chance(1, 3) {
+            return st;
+        }
+        match st {
+            Stmt::Do(E::Op(n, a)) => {
+                let host = match (is_map, n.as_str(), a.len()) {
+                    (true, "insert", 3) => Some("h_insert"),
+                    (true, "remove", 2) => Some("h_remove"),
+                    (true, "get", 2) => Some("h_get"),
+                    (true, "clear", 1) => Some("h_clear"),
+                    (true, "keys", 1) => Some("h_keys"),
+                    (_, "size", 1) => Some("h_len"),
+                    (false, "push", 2) => Some("h_push"),
+                    _ => None,
+                };
+                Stmt::Do(E::Op(host.map(|h| h.to_string()).unwrap_or(n), a))
+            }
+            st => st,
+        }
+    }
+
+    /// operations that only the host API has: ValueMap::make_data_slice, KMap::remove_path
+    fn host_map_stmt(&mut self, d: &Dump, es: &[(V, V)], t: E, slot: usize) -> Option<Stmt> {
+        let len = es.len() as i64;
+        if self.rng.chance(1, 2) {
+            let a = self.rng.range(0, len + 1);
+            let b = self.rng.range(a.min(len), len + 2).max(0);
+            return Some(Stmt::Let(slot, op("h_slice", vec![t, imm(V::I(a)), imm(V::I(b))])));
+        }
+        // a path through nested maps along string keys
+        let mut path: Vec<u8> = vec![];
+        let mut cur: Vec<(V, V)> = es.to_vec();
+        for level in 0..3 {
+            let strs: Vec<&(V, V)> = cur.iter().filter(|(k, _)| matches!(k, V::S(s) if !s.is_empty() && !s.contains(&b'.'))).collect();
+            let nested: Vec<&(V, V)> = strs.iter().filter(|(_, v)| matches!(v, V::Ref(id) if matches!(d.objs.get(id), Some(Obj::Map(_))))).cloned().collect();
+            if !nested.is_empty() && level < 2 && self.rng.chance(2, 3) {
+                let (k, v) = nested[self.rng.below(nested.len())].clone();
+                if let (V::S(s), V::Ref(id)) = (k, v) {
+                    path.extend_from_slice(&s);
+                    path.push(b'.');
+                    if let Some(Obj::Map(inner)) = d.objs.get(&id) {
+                        cur = inner.clone();
+                    }
+                    continue;
+                }
+            }
+            let last: Vec<u8> = if !strs.is_empty() && self.rng.chance(3, 4) {
+                match &strs[self.rng.below(strs.len())].0 { V::S(s) => s.clone(), _ => b"a".to_vec() }
+            } else {
+                self.rng.pick(&["a", "b", "zz"]).as_bytes().to_vec()
+            };
+            path.extend_from_slice(&last);
+            break;
+        }
+        if path.is_empty() || path.ends_with(b".") {
+            path.extend_from_slice(b"a");
+        }
+        Some(Stmt::Do(op("h_remove_path", vec![t, imm(V::S(path))])))
+    }
+
     fn tuple_stmt(&mut self, _d: &Dump, conts: &[Path], xs: &[V], t: E, slot: usize) -> Option<Stmt> {
         let len = xs.len();
-        let c = self.rng.below(12);
+        let c = self.rng.below(15);
         Some(match c {
+            // KTuple host helpers: sub-tuples (also of sub-tuples) and the pop_* bound adjustments
+            12 => {
+                let a = self.rng.range(0, len as i64);
+                // now and then an end beyond the tuple's own length: the doc promises None
+                let b = if self.rng.chance(1, 6) { len as i64 + 1 + self.rng.range(0, 1) } else { self.rng.range(a, len as i64) };
+                Stmt::Let(slot, op("h_subtuple", vec![t, imm(V::I(a)), imm(V::I(b))]))
+            }
+            13 => Stmt::Let(slot, op("h_pop_front", vec![t])),
+            14 => Stmt::Let(slot, op("h_pop_back", vec![t])),
             0 => Stmt::Do(op(*self.rng.pick(&["first", "last", "size", "is_empty"]), vec![t])),
             1 => Stmt::Do(op("get", vec![t, imm(self.index(len))])),
             2 => Stmt::Do(op("contains", vec![t, imm(scalar(self.rng))])),
